@@ -13,8 +13,9 @@ META = dict(
          "and one body piece, stream: a generator without a length yielding several pieces (one of them empty), empty: no length "
          "and an empty iterable}; all 3 + 9 + 27 kind sequences. Schedule: the driver alternates Patron.serviceAll / "
          "Valet.serviceAll; servicing the same side again costs one deviation; every recv on either side may return 1 byte, half, "
-         "or all but one byte of what is waiting instead of everything (one deviation each); all schedules with <= 2 (quick) / "
-         "<= 4 (thorough) deviations. A second mode sends the N requests in one burst from a raw client socket (requests "
+         "or all but one byte of what is waiting instead of everything (one deviation each); all schedules with <= 2 deviations "
+         "(quick; POST with N = 3 is left to the thorough tier) / <= 4 for N = 1 and the burst mode, <= 3 for N = 2 and for "
+         "GET N = 3, <= 2 for POST N = 3 (thorough). A second mode sends the N requests in one burst from a raw client socket (requests "
          "pipelined on the wire) and enumerates the server-side short reads. Required: nothing raises; the client gets exactly N "
          "responses, in request order, each carrying the request that caused it (rid, path) and exactly the body the app produced "
          "for that request, both when delivered and at the end of the run; the app is called once per request in order; the bytes "
@@ -30,7 +31,21 @@ from mc import core, net, httpharness as hh
 PORT = 8080
 KINDS = ("fixed", "stream", "empty")
 DATE = "Thu, 01 Jan 2026 00:00:00 GMT"
-BOUND = dict(quick=2, thorough=4)
+
+
+def bound_for(mode, method, n):
+    """Deviation bound per configuration (measured so that quick stays ~20 s and thorough ~12 min on 16 cores)."""
+    if core.TIER != "thorough":
+        if mode == "patron" and method == "POST" and n == 3:
+            return None                 # not run in the quick tier
+        return 2
+    if mode == "burst":
+        return 4
+    if n == 1:
+        return 4
+    if n == 2:
+        return 3
+    return 3 if method == "GET" else 2
 STEPS_PER_REQ = 14
 TAIL = 4
 
@@ -257,9 +272,8 @@ def sched_str(ch, sched):
 
 
 def work(cfg):
-    idx, mode, method, kinds = cfg
+    idx, mode, method, kinds, bound = cfg
     hh.setup()
-    bound = BOUND[core.TIER]
     p = core.Part()
     states = set()
     best = {}
@@ -270,11 +284,13 @@ def work(cfg):
         p.traces += 1
         p.evaluations += 1
         if not viol:
-            p.outcome("%s N=%d ok" % (mode, len(kinds)))
+            ss = [s for s in fn.sockets if "<" in s.name]
+            fr = [r["framing"] for r in hh.parse_responses(ss[0].sent)[0]] if ss else []
+            p.outcome("%s ok, framing on the wire: %s" % (mode, ",".join(fr)))
         for kind, what in viol:
             group = "%s|%s" % (mode, kind)
             p.outcome("violation %s" % group)
-            rank = (ch.deviations(), len(kinds), idx, len(ch.choices), list(ch.choices))
+            rank = (ch.deviations(), len(kinds), idx, len(ch.choices), tuple(ch.choices))
             if group not in best or rank < best[group][0]:
                 ss = [s for s in fn.sockets if "<" in s.name]
                 best[group] = (rank, (
@@ -298,7 +314,6 @@ def work(cfg):
     for h in states:
         p.keys.add(h.to_bytes(8, "little", signed=True))
     p.notes["dfs executions"] += st["executions"]
-    p.notes["max choice points in one execution"] = max(p.notes["max choice points in one execution"], st["max_points"])
     if idx == 0:
         p.sample(dict(mode=mode, method=method, kinds=list(kinds), executions=st["executions"],
                       max_choice_points=st["max_points"]), limit=1)
@@ -314,27 +329,22 @@ def configs():
     for mode in ("patron", "burst"):
         for method in ("GET", "POST"):
             for kinds in seqs:
-                cfgs.append((len(cfgs), mode, method, kinds))
+                b = bound_for(mode, method, len(kinds))
+                if b is not None:
+                    cfgs.append((len(cfgs), mode, method, kinds, b))
     return cfgs
 
 
 def run():
     ck = core.Check("C31", META["level"], META["technique"])
     cfgs = configs()
-    order = sorted(range(len(cfgs)), key=lambda i: (-len(cfgs[i][3]), cfgs[i][1] != "patron", i))   # long jobs first
-    results = core.pmap(work, [cfgs[i] for i in order])
-    best = {}
-    for part, b in results:
-        part.violations = []
-        ck.part.merge(part)
-        for g, (rank, v) in b.items():
-            rank = tuple(rank[:4]) + (tuple(rank[4]),)
-            if g not in best or rank < best[g][0]:
-                best[g] = (rank, v)
-    for g in sorted(best, key=lambda g: best[g][0]):
-        ck.part.violation(*best[g][1])
+    order = sorted(range(len(cfgs)), key=lambda i: (cfgs[i][1] != "patron", -cfgs[i][4] * len(cfgs[i][3]), i))   # long jobs first
+    hh.merge_best(ck, core.pmap(work, [cfgs[i] for i in order]))
     ck.part.states = len(ck.part.keys)
-    ck.coverage_extra = dict(deviation_bound=BOUND[core.TIER], kind_sequences=39, modes=["patron", "burst"],
+    bounds = {}
+    for c in cfgs:
+        bounds["%s %s N=%d" % (c[1], c[2], len(c[3]))] = c[4]
+    ck.coverage_extra = dict(deviation_bound=bounds, kind_sequences=39, modes=["patron", "burst"],
                              methods=["GET", "POST"], configurations=len(cfgs), liveness_window_calls_per_request=STEPS_PER_REQ)
     ck.assumptions = [
         "socket doubles (mc/net.py) instead of loopback sockets; sends are accepted whole, a recv returns everything waiting or "
@@ -354,8 +364,8 @@ def run():
     ]
     return ck.finish(
         rule="{Patron client, raw pipelined burst} x {GET, POST with body} x every sequence of 1..3 kinds from {fixed, stream, "
-             "empty}: every schedule with <= %d deviations among {service the same side again, recv returns 1 byte / half / all "
-             "but one}" % BOUND[core.TIER],
+             "empty}: every schedule with <= b deviations among {service the same side again, recv returns 1 byte / half / all "
+             "but one}; b per configuration: %s" % ", ".join("%s: %d" % kv for kv in sorted(bounds.items())),
         exhaustive=False,
         explanation="exhaustive within the deviation bound, N <= 3 and the three cut points per recv")
 
